@@ -854,6 +854,8 @@ def prop_consist(ctx):
             if isinstance(t, ast.Name) and isinstance(v, (ast.Attribute, ast.Subscript)) and \
                     'shape' in norm_text(v):
                 continue
+            if isinstance(t, ast.Name) and _is_count(v, {}):
+                continue            # a row count (checked by the loop-range obligations)
             if isinstance(t, ast.Subscript) and isinstance(t.value, ast.Name) and \
                     t.value.id == E.state and norm_text(t.slice) == '0':
                 x0 = (E.val(v), st)
@@ -876,6 +878,90 @@ def prop_consist(ctx):
            ('%s+1' % node_loopvar(f), '1+%s' % node_loopvar(f)), None,
            'the recursion writes row i + 1', f=f, node=node, key='row',
            why='the recursion stores into row `%s`' % idx)
+    # documented defaults: no sensor errors, zero initial error
+    def zero_array(expr, length, scalar_ok=False):
+        ev0 = SymEval(ctx.repo)
+        ev0.cur, ev0.depth = f, 1
+        try:
+            v = ev0.eval(expr, {})
+        except Unsupported:
+            return None
+        if isinstance(v, Rec):
+            v = list(v.cols.values()) if hasattr(v, 'cols') else None
+        if isinstance(v, SArray):
+            v = [v.get(i) for i in v.indices()] if v.shape == (length,) else None
+        if scalar_ok and isinstance(v, (Rat, int, float)) and not isinstance(v, bool):
+            return ev0.A.is_zero(ev0.rat(v))        # a scalar broadcast over the given index
+        if isinstance(v, tuple):
+            v = list(v)
+        if not isinstance(v, list) or len(v) != length:
+            return False
+        return all(isinstance(x, (Rat, int, float)) and ev0.A.is_zero(ev0.rat(x)) for x in v)
+    for p_ in (gy[0], ac[0]):
+        dflt = f.defaults.get(p_)
+        if dflt is not None:
+            z = zero_array(dflt, 3)
+            ctx.need(z is not None, 'propagate_errors: default of %s not analysable' % p_)
+            ctx.ob('PROP-CONSIST', z, None, 'default %s is the zero 3-vector' % p_, f=f, node=dflt,
+                   key='default-' + p_,
+                   why='the default of `%s` is `%s`, not three zeros: a call that does not pass '
+                       'sensor errors propagates a spurious one' % (p_, norm_text(dflt)))
+    for st in body:
+        if isinstance(st, ast.If) and isinstance(st.test, ast.Compare) and \
+                isinstance(st.test.left, ast.Name) and st.test.left.id == init_param[0] and \
+                isinstance(st.test.ops[0], ast.Is):
+            for s2 in st.body:
+                if isinstance(s2, ast.Assign) and isinstance(s2.targets[0], ast.Name) and \
+                        s2.targets[0].id == init_param[0]:
+                    v = s2.value
+                    data = v
+                    if isinstance(v, ast.Call) and (E.res(v.func) or '').startswith('pandas.'):
+                        data = next((k.value for k in v.keywords if k.arg == 'data'),
+                                    v.args[0] if v.args else None)
+                    z = zero_array(data, 9, data is not v) if data is not None else None
+                    ctx.need(z is not None, 'propagate_errors: default initial error not '
+                             'analysable')
+                    ctx.ob('PROP-CONSIST', z, None, 'default initial error is zero (9 components)',
+                           f=f, node=s2, key='default-e0',
+                           why='without an initial error the propagation starts from `%s`, not '
+                               'from nine zeros' % norm_text(data))
+    # the loop visits every interval once: range(N - 1) with the state allocated with N rows
+    loops = [st for st in body if isinstance(st, ast.For)]
+    ctx.need(len(loops) == 1, 'propagate_errors: %d loops' % len(loops))
+    lp = loops[0]
+    defs = {}
+    for st in body:
+        if st is lp:
+            break
+        if isinstance(st, ast.Assign) and len(st.targets) == 1:
+            t = st.targets[0]
+            if isinstance(t, ast.Name):
+                defs[t.id] = st.value
+            elif isinstance(t, ast.Tuple) and all(isinstance(x, ast.Name) for x in t.elts):
+                for x in t.elts:
+                    defs[x.id] = st.value        # Fi, Fig, Fia = system_matrices(trajectory)
+    it = lp.iter
+    rng = None
+    if isinstance(it, ast.Call) and norm_text(it.func) == 'range' and len(it.args) == 1 and \
+            not it.keywords:
+        rng = _rows(it.args[0], defs, traj, E.em, E.res)
+    ctx.need(rng is not None, 'propagate_errors: loop bound `%s` not analysable as a row count'
+             % norm_text(it)[:60])
+    ctx.ob('PROP-CONSIST', rng == (1, -1), None,
+           'the recursion runs over range(N - 1), N = rows of the trajectory', f=f, node=lp,
+           key='loop-range',
+           why='the recursion runs over `%s` = %s intervals, but a trajectory of N rows has N - 1: '
+               '%s' % (norm_text(it), _cnt_text(rng),
+                       'the last rows of the result are never computed (left uninitialised)'
+                       if isinstance(rng[1], str) or rng[0] < 1 or rng[1] < -1
+                       else 'it indexes past the last row'))
+    srows = _rows(ast.Name(E.state, ast.Load()), defs, traj, E.em, E.res) if E.state else None
+    ctx.need(srows is not None, 'propagate_errors: number of rows of the state array not '
+             'analysable')
+    ctx.ob('PROP-CONSIST', srows == (1, 0), None, 'the state array has one row per trajectory row',
+           f=f, node=lp, key='state-rows',
+           why='the propagated state is allocated with %s rows for a trajectory of N rows'
+               % _cnt_text(srows))
     col = val.rename(lambda a: a[:-1] if a.endswith('+') else a)
     at = A.atom
     x = at('x')
@@ -902,6 +988,114 @@ def prop_consist(ctx):
            node=(out_val[1] if out_val else f.node), key='output',
            why='returned trajectory error is not transform_to_output(%s) applied to the '
                'propagated state' % traj)
+
+
+def _rows(e, defs, traj, em, res, depth=0):
+    """Leading-axis length of an expression as (a, b) meaning a * N + b, N = rows of the
+    trajectory; None when not determined.  For a scalar count expression (`n`, `n - 1`,
+    `X.shape[0]`, `len(X)`) the same pair is its value."""
+    if depth > 12:
+        return None
+    r = lambda x: _rows(x, defs, traj, em, res, depth + 1)
+    if isinstance(e, ast.Constant) and isinstance(e.value, int) and not isinstance(e.value, bool):
+        return (0, e.value)
+    if isinstance(e, ast.Name):
+        if e.id == traj:
+            return (1, 0)
+        if e.id in defs:
+            return r(defs[e.id])
+        return None
+    if isinstance(e, ast.Attribute):
+        if e.attr in ('index', 'values', 'T') and e.attr != 'T':
+            return r(e.value)
+        return None
+    if isinstance(e, ast.Subscript):
+        # X.shape[0]
+        if isinstance(e.value, ast.Attribute) and e.value.attr == 'shape':
+            if isinstance(e.slice, ast.Constant) and e.slice.value == 0:
+                return r(e.value.value)
+            return (0, 'the length of another axis') if r(e.value.value) is not None else None
+        if isinstance(e.value, ast.Attribute) and e.value.attr in ('loc', 'iloc'):
+            return None
+        base = r(e.value)
+        sl = e.slice.elts[0] if isinstance(e.slice, ast.Tuple) and e.slice.elts else e.slice
+        if base is None or not isinstance(sl, ast.Slice) or sl.step is not None:
+            return None if not (isinstance(sl, ast.Slice) and base is not None) else None
+        lo = 0 if sl.lower is None else (sl.lower.value if isinstance(sl.lower, ast.Constant)
+                                         else None)
+        if sl.upper is None:
+            hi = 0
+        elif isinstance(sl.upper, ast.UnaryOp) and isinstance(sl.upper.op, ast.USub) and \
+                isinstance(sl.upper.operand, ast.Constant):
+            hi = sl.upper.operand.value
+        else:
+            return None
+        if not isinstance(lo, int) or lo < 0:
+            return None
+        return (base[0], base[1] - lo - hi)
+    if isinstance(e, ast.BinOp):
+        a, b = r(e.left), r(e.right)
+        if isinstance(e.op, (ast.Add, ast.Sub)) and a is not None and b is not None and \
+                (a[0] == 0 or b[0] == 0) and (_is_count(e.left, defs) or _is_count(e.right, defs)):
+            sg = 1 if isinstance(e.op, ast.Add) else -1
+            if isinstance(a[1], str) or isinstance(b[1], str):
+                return (0, 'the length of another axis')
+            return (a[0] + sg * b[0], a[1] + sg * b[1])
+        # element-wise arithmetic of arrays: the (broadcast) leading length of the operands
+        c = [x for x in (a, b) if x is not None and x[0] != 0]
+        if c and all(x == c[0] for x in c):
+            return c[0]
+        return None
+    if isinstance(e, ast.Call):
+        q = res(e.func) or ''
+        if q == 'builtins.len' or norm_text(e.func) == 'len':
+            return r(e.args[0]) if e.args else None
+        if q == 'numpy.diff' and e.args:
+            a = r(e.args[0])
+            return None if a is None else (a[0], a[1] - 1)
+        if q in ('numpy.asarray', 'numpy.array', 'numpy.abs') and e.args:
+            return r(e.args[0])
+        if q in ('numpy.empty', 'numpy.zeros', 'numpy.ones') and e.args:
+            sh = e.args[0]
+            return r(sh.elts[0]) if isinstance(sh, ast.Tuple) and sh.elts else r(sh)
+        if q.endswith('util.mv_prod') or q.endswith('util.mm_prod'):
+            c = [x for x in map(r, e.args[:2]) if x is not None and x[0] != 0]
+            return c[0] if c and all(x == c[0] for x in c) else None
+        if isinstance(e.func, ast.Attribute):
+            if isinstance(e.func.value, ast.Name) and e.func.value.id == em and e.args and \
+                    e.func.attr in ('system_matrices', 'transform_to_output'):
+                return r(e.args[0])
+            if e.func.attr == 'reshape' and e.args and isinstance(e.args[0], ast.UnaryOp) and \
+                    isinstance(e.args[0].operand, ast.Constant) and e.args[0].operand.value == 1:
+                return r(e.func.value)
+            if e.func.attr in ('copy', 'dot') and e.func.attr == 'copy':
+                return r(e.func.value)
+        return None
+    return None
+
+
+def _is_count(e, defs, depth=0):
+    """syntactically a scalar count: a constant, len(...), X.shape[k] or a name bound to one"""
+    if depth > 8:
+        return False
+    if isinstance(e, ast.Constant):
+        return isinstance(e.value, int)
+    if isinstance(e, ast.Call):
+        return norm_text(e.func) == 'len'
+    if isinstance(e, ast.Subscript):
+        return isinstance(e.value, ast.Attribute) and e.value.attr == 'shape'
+    if isinstance(e, ast.BinOp):
+        return _is_count(e.left, defs, depth + 1) and _is_count(e.right, defs, depth + 1)
+    if isinstance(e, ast.Name) and e.id in defs:
+        return _is_count(defs[e.id], defs, depth + 1)
+    return False
+
+
+def _cnt_text(c):
+    a, b = c
+    if isinstance(b, str):
+        return b
+    return ('%sN%s' % ('' if a == 1 else a, (' %+d' % b) if b else '')) if a else str(b)
 
 
 def node_loopvar(f):
